@@ -83,6 +83,8 @@ class World:
                 if rng.random() < 0.7:
                     o["palette"] = rng.randrange(2)
                     o["T"] = 0
+        if sdrun:
+            kinds = kinds + ["sdtocf", "sdtocf", "add"]
         for _ in range(n):
             k = rng.choice(kinds)
             if k == "new":
@@ -116,7 +118,7 @@ class World:
         kind = "sd" if (sdrun and rng.random() < 0.7) else "cf"
         types = (CF_TYPES if kind == "cf" else SD_TYPES) + ((KF_CF_TYPES if kind == "cf" else KF_SD_TYPES) if kf else [])
         return {"op": "new", "kind": kind, "type": rng.randrange(len(types)) if not kf else rng.randrange(len(types)),
-                "unit": rng.randrange(len(UNITS)), "axis": rng.choice([0, 0, 0, 0, 1, 1, 2, 3]), "T": rng.choice([0, 0, 0, 1]),
+                "unit": rng.randrange(len(UNITS)), "axis": rng.choice([0, 0, 0, 0, 1, 1, 2, 3]), "T": rng.choice([0, 0, 0, 1]) if kind == "cf" else rng.choice([0, 1]),
                 "reorg": round(rng.uniform(5, 100), 3), "cortime": round(rng.uniform(30, 300), 2),
                 "freq": round(rng.uniform(100, 800), 2), "gamma": round(rng.uniform(5, 50), 3),
                 "matsubara": rng.choice([None, 5, 20]), "template": rng.random() < 0.25}
